@@ -73,7 +73,9 @@ def generate(rng, n, tier, stats):
                 form = {'tuple': [idxs.get(j, 'full') for j in range(which[-1] + 1)]}
             if spelling == 'getitem' and 'dict' in form: spelling = 'take'
             op = ['take', spelling, form]
-        elif fam == 'reduce': op = ['reduce', rng.choice(['mean', 'std', 'var', 'median', 'sum']), r]
+        elif fam == 'reduce':
+            op = ['reduce', rng.choice(['mean', 'std', 'var', 'median', 'sum']), r]
+            if rng.random() < 0.15: op[2] = None; stats['reduce_axis_none']['yes'] += 1      # over all dimensions: every variable becomes a scalar
         elif fam == 'take_axis':
             if rng.random() < 0.5: op = ['take_axis', [rng.choice(labs) for _ in range(rng.randint(0, 3))], r, 'label']
             else: op = ['take_axis', [rng.randrange(-len(labs), len(labs)) for _ in range(rng.randint(0, 3))], r, 'position']
@@ -191,6 +193,7 @@ def per_variable(v, dss, op, key):
         if not idx: return None          # the variable has none of the indexed dimensions: left unchanged (metadata included)
         mode = 'position' if spelling in ('ix', 'isel') else 'label'
         return v.take(idx, indexing=mode)
+    if n == 'reduce' and op[2] is None: return getattr(v, op[1])(axis=None)
     if n == 'reduce': return getattr(v, op[1])(axis=dname(op[2])) if dname(op[2]) in v.dims else None
     if n == 'take_axis':
         d = dname(op[2])
@@ -262,6 +265,7 @@ def coq_case(c, res):
     if n == 'take':
         _, spelling, form = op
         w = '(WTake %s TolNone false)' % ops.cq_form(form)
+    elif n == 'reduce' and op[2] is None: return None      # axis=None: the per-variable DimArray reduction is the reference (oracle)
     elif n == 'reduce': w = '(WReduce %s %s)' % (ops._RED[op[1]], cq_axref(op[2]))
     elif n == 'take_axis':
         w = ('(WTakeAxisLabel %s %s)' % (ops.cq_labs(op[1]), cq_axref(op[2]))) if op[3] == 'label' else '(WTakeAxisPos %s %s)' % (cq_list([cq_z(z) for z in op[1]]), cq_axref(op[2]))
